@@ -71,6 +71,12 @@ theorem rootDef_toRG {nodes : Array ParseNode} {l r : Spec.Tree} {i k : Nat} {n 
   simp only [toRG, dfOf_get h]
   split <;> rfl
 
+theorem treeRT_eq (nodes : Array ParseNode) : ∀ t : Spec.Tree, treeRT nodes t = toRG (dfOf nodes) t
+  | .nil => rfl
+  | .node l i k r => by
+    simp only [treeRT, toRG, treeRT_eq nodes l, treeRT_eq nodes r]
+    rfl
+
 /-- the shape `validate_parse_tree` accepts, from the parent links of the index tree and the in-order numbering -/
 theorem shape_of_tree {nodes : Array ParseNode} : ∀ (t : Spec.Tree) (p : Option Nat) (link : Option Nat) (lo hi : Nat),
     t ≠ .nil → IsTreeAt nodes p link t → t.inorder = List.range' lo (hi - lo) → Shape nodes lo hi (rootIdx t)
@@ -120,20 +126,48 @@ theorem go_leaf (d : Definition) (k : Nat) :
     go pf κ toks (.node .nil d k .nil) = (leafE pf d (textAt toks k)).map (fun e => plain e []) := by
   simp [go]
 
-theorem go_pre (d : Definition) (k : Nat) (r : RTree) (hr : r ≠ .nil) :
+/-- a `SideEffect` node without left child -/
+def isSideNode : RTree → Bool
+  | .node .nil d _ _ => d == .sideEffect
+  | _ => false
+
+theorem go_pre (d : Definition) (k : Nat) (r : RTree) (hr : r ≠ .nil) (hs : isSideNode r = false) :
     go pf κ toks (.node .nil d k r) = (go pf κ toks r).bind (preE d (textAt toks k)) := by
-  rw [go.eq_5 _ _ _ _ _ _ hr]
-  cases go pf κ toks r <;> rfl
+  cases r with
+  | nil => exact absurd rfl hr
+  | node l d2 k2 body =>
+    cases l with
+    | nil =>
+      simp only [isSideNode] at hs
+      rw [go.eq_5]
+      simp only [hs, Bool.false_eq_true, if_false]
+      cases go pf κ toks (.node .nil d2 k2 body) <;> rfl
+    | node _ _ _ _ =>
+      rw [go.eq_6 _ _ _ _ _ _ (by simp) (by simp)]
+      cases go pf κ toks _ <;> rfl
+    | group _ _ _ =>
+      rw [go.eq_6 _ _ _ _ _ _ (by simp) (by simp)]
+      cases go pf κ toks _ <;> rfl
+  | group _ _ _ =>
+    rw [go.eq_6 _ _ _ _ _ _ (by simp) (by simp)]
+    cases go pf κ toks _ <;> rfl
+
+theorem go_side (d : Definition) (k k2 : Nat) (body : RTree) :
+    go pf κ toks (.node .nil d k (.node .nil .sideEffect k2 body)) =
+      (leafE pf d (textAt toks k)).bind (fun e => (go pf κ toks body).bind (fun x => some (plain (.sideAfter e x.e) x.bodies))) := by
+  rw [go.eq_5]
+  simp only [beq_self_eq_true, if_true]
+  cases leafE pf d (textAt toks k) <;> cases go pf κ toks body <;> rfl
 
 theorem go_suf (d : Definition) (k : Nat) (l : RTree) (hl : l ≠ .nil) :
     go pf κ toks (.node l d k .nil) = (go pf κ toks l).bind (sufE d (textAt toks k)) := by
-  rw [go.eq_6 _ _ _ _ _ _ hl]
+  rw [go.eq_7 _ _ _ _ _ _ hl]
   cases go pf κ toks l <;> rfl
 
 theorem go_bin (d : Definition) (k : Nat) (l r : RTree) (hl : l ≠ .nil) (hr : r ≠ .nil) :
     go pf κ toks (.node l d k r) = (go pf κ toks l).bind (fun a => (go pf κ toks r).bind (fun b =>
       binE d (textAt toks k) (rootIs l d) (rootIs r d) (rootCond l) (rootCond r) (isJumpIf r) a b)) := by
-  rw [go.eq_7 _ _ _ _ _ _ _ (fun h _ => hl h) hl hr]
+  rw [go.eq_8 _ _ _ _ _ _ _ (fun h _ => hl h) (fun _ _ _ h _ => hl h) hl hr]
   cases go pf κ toks l <;> cases go pf κ toks r <;> rfl
 
 theorem go_group (k : Nat) (inner : RTree) :
